@@ -27,6 +27,15 @@ CASES = {
         (REQ, H, 1, 1, REQF + [NAME], 0, -1, 0), (RESP, D, 1, 0, b"x", -1), (RESP, GOAWAY, 0, 2, b"")], []),
     "data-before-headers-close-server": ("response DATA before any response HEADERS, then the server conn is closed: must not panic", 1, [
         (REQ, H, 1, 1, REQF + [NAME], 0, -1, 0), (RESP, D, 1, 0, b"x", -1)], [[2, 0]]),
+    "reset-before-headers": ("a named stream reset by the server before any response headers: one trace ending in the reset", 0, [
+        (REQ, H, 1, 1, REQF + [NAME], 0, -1, 0), (RESP, RST, 1, 2)], []),
+    "refused-then-retried": ("REFUSED_STREAM, then a new attempt with the same test name: only the retry's trace", 0, [
+        (REQ, H, 1, 1, REQF + [NAME], 0, -1, 0), (RESP, RST, 1, 7),
+        (REQ, H, 3, 1, [(":method", "POST"), (":scheme", "http"), (":authority", "h"), (":path", "/s.S/M2"),
+                        ("content-type", "application/grpc"), NAME], 0, -1, 0),
+        (RESP, H, 3, 0, RESPF, 0, -1, 0), (RESP, H, 3, 1, TRAIL, 0, -1, 0)], [[2, 0]]),
+    "refused-not-retried": ("REFUSED_STREAM without a retry: the refused attempt's trace when the timer fires", 0, [
+        (REQ, H, 1, 1, REQF + [NAME], 0, -1, 0), (RESP, RST, 1, 7), (REQ, c15.TIMESUP, "Suite/a/x")], []),
 }
 
 items = [(PREFACE, frames) for (_, _, frames, _) in CASES.values()]
